@@ -510,7 +510,7 @@ def f_norm(F, res):
             else:
                 res.add([finding("F-NORM", key, where(f, s["line"]), "parameter name reaches the IR without lower-casing: " + "; ".join(why))])
     res.count("Param name constructions", n)
-    res.floor("Param name constructions", n, 6)
+    res.floor("Param name constructions", n, 4)
 
 
 def run(ctx):
